@@ -50,13 +50,30 @@ func (e *Engine) mergeRegion(b *ssa.BasicBlock) *regionInfo {
 		}
 		stack = append(stack, x.Succs...)
 	}
-	// the region must be acyclic and contain only simple instructions
+	// the region must be acyclic (considering only edges that stay inside it) and contain only
+	// simple instructions
 	for x := range blocks {
-		for y := range blocks {
-			if x == y && fi.reach[x.Index][x.Index] {
-				// x is on a cycle; allowed only if the cycle leaves the region (goes through b or join)
-				// conservatively reject
+		seen := map[*ssa.BasicBlock]bool{}
+		var st []*ssa.BasicBlock
+		for _, s := range x.Succs {
+			if blocks[s] {
+				st = append(st, s)
+			}
+		}
+		for len(st) > 0 {
+			y := st[len(st)-1]
+			st = st[:len(st)-1]
+			if y == x {
 				return r
+			}
+			if seen[y] {
+				continue
+			}
+			seen[y] = true
+			for _, s := range y.Succs {
+				if blocks[s] {
+					st = append(st, s)
+				}
 			}
 		}
 		for _, ins := range x.Instrs {
